@@ -70,6 +70,15 @@ Proof.
                       (fun idx Hi => argument_enc a tags args rest idx WF Hi))).
 Qed.
 
+(* the premise of C07_valid_safe is satisfiable by every canonical message:
+   the validator accepts every OSC 1.0 encoding whose address starts with '/'
+   and is printable (completeness on the encoder's image) *)
+Theorem C07_valid_accepts_canonical : forall (a' : list byte) tags args,
+  let a : list byte := (47 : byte) :: a' in
+  msg_wf a tags args -> printable a -> zlen (enc_spec a tags args) < W32 ->
+  valid_message_p (enc_spec a tags args) (zlen (enc_spec a tags args)) = Ok true.
+Proof. exact valid_enc. Qed.
+
 (* regression witnesses (all repaired by "fix:" commits): *)
 (* a blob length that wraps the 32-bit position was accepted, argument 1 then
    lies outside the buffer *)
